@@ -105,6 +105,10 @@ func (a *Allocation) AddPermission(perms *Permission) {
 	perms.allocation = a
 	a.permissionsLock.Lock()
 	a.permissions[fingerprint] = perms
+	// Arm the lifetime timer before the permission becomes visible: a
+	// concurrent Close (allocation expiry during the OnPermissionCreated
+	// callback below) stops the timer of every listed permission.
+	perms.start(perms.timeout)
 	a.permissionsLock.Unlock()
 
 	if a.eventHandler.OnPermissionCreated != nil {
@@ -114,8 +118,6 @@ func (a *Allocation) AddPermission(perms *Permission) {
 				a.RelayAddr, u.IP)
 		}
 	}
-
-	perms.start(perms.timeout)
 }
 
 // RemovePermission removes the net.Addr's fingerprint from the allocation's permissions.
